@@ -11,11 +11,16 @@ use serde_json::Value;
 use sos_account::Account;
 use sos_core::{
     commit::{CommitHash, CommitProof, CommitTree},
-    events::{patch::CheckedPatch, EventLogType, EventRecord, WriteEvent},
-    UtcDateTime,
+    device::{DevicePublicKey, TrustedDevice},
+    events::{
+        patch::{AccountDiff, CheckedPatch, DeviceDiff, FileDiff, FolderDiff, Patch},
+        AccountEvent, DeviceEvent, EventLogType, EventRecord, FileEvent, WriteEvent,
+    },
+    ExternalFileName, SecretPath, UtcDateTime,
 };
 use sos_protocol::{PatchRequest, SyncClient};
 use sos_remote_sync::AutoMerge;
+use sos_sync::{Merge, MergeOutcome};
 
 #[derive(Clone, Debug, Serialize, Deserialize, PartialEq, Eq, Hash)]
 pub enum ProofKind {
@@ -27,6 +32,18 @@ pub enum ProofKind {
     ForgedRoot(u8),
     /// head proof of the full (un-rewound) log
     FullLog,
+    /// the default proof: what a sender uses for a log the receiver does not have yet
+    DefaultProof,
+}
+
+#[derive(Clone, Debug, Default, Serialize, Deserialize, PartialEq, Eq, Hash)]
+pub enum LogSel {
+    Identity,
+    Account,
+    Device,
+    Files,
+    #[default]
+    Folder,
 }
 
 #[derive(Clone, Debug, Serialize, Deserialize, PartialEq, Eq, Hash)]
@@ -42,6 +59,15 @@ pub struct PatchCase {
     pub patch_len: u8,
     /// send to the server (true) or run the client-side rewind_local (false)
     pub server_side: bool,
+    /// which log the request addresses
+    #[serde(default)]
+    pub log: LogSel,
+    /// plain patch request without a rewind (`commit: None`); `target` is ignored
+    #[serde(default)]
+    pub no_rewind: bool,
+    /// file log only: number of file events planted first through an init diff
+    #[serde(default)]
+    pub prefill_files: u8,
 }
 
 pub fn case_strategy() -> impl Strategy<Value = PatchCase> {
@@ -55,11 +81,32 @@ pub fn case_strategy() -> impl Strategy<Value = PatchCase> {
             3 => any::<u16>().prop_map(ProofKind::Shorter),
             2 => any::<u8>().prop_map(ProofKind::ForgedRoot),
             2 => Just(ProofKind::FullLog),
+            2 => Just(ProofKind::DefaultProof),
         ],
         0u8..4,
         any::<bool>(),
+        prop_oneof![
+            5 => Just(LogSel::Folder),
+            3 => Just(LogSel::Files),
+            1 => Just(LogSel::Identity),
+            1 => Just(LogSel::Account),
+            1 => Just(LogSel::Device),
+        ],
+        prop_oneof![2 => Just(false), 1 => Just(true)],
+        0u8..4,
     )
-        .prop_map(|(cfg, server_db, depth, target, proof, patch_len, server_side)| PatchCase { cfg, server_db, depth, target, proof, patch_len, server_side })
+        .prop_map(|(cfg, server_db, depth, target, proof, patch_len, server_side, log, no_rewind, prefill_files)| PatchCase {
+            cfg,
+            server_db,
+            depth,
+            target,
+            proof,
+            patch_len,
+            server_side,
+            log,
+            no_rewind,
+            prefill_files,
+        })
 }
 
 fn tree_head(commits: &[[u8; 32]]) -> Option<CommitProof> {
@@ -73,20 +120,57 @@ fn tree_head(commits: &[[u8; 32]]) -> Option<CommitProof> {
     t.head().ok()
 }
 
-async fn synthetic_patch(n: u8) -> Vec<EventRecord> {
+async fn synthetic_patch(log: &LogSel, n: u8, salt: u8) -> Vec<EventRecord> {
     let mut v = vec![];
     for i in 0..n {
-        let ev = if i % 2 == 0 {
-            WriteEvent::SetVaultName(format!("patched-{i}"))
-        } else {
-            WriteEvent::DeleteSecret(uuid::Uuid::from_bytes([0xD0 + i; 16]))
+        let tag = salt.wrapping_add(i);
+        let bytes = match log {
+            LogSel::Identity | LogSel::Folder => {
+                let ev = if i % 2 == 0 { WriteEvent::SetVaultName(format!("patched-{tag}")) } else { WriteEvent::DeleteSecret(uuid::Uuid::from_bytes([tag; 16])) };
+                sos_core::encode(&ev).await.unwrap()
+            }
+            LogSel::Account => sos_core::encode(&AccountEvent::RenameAccount(format!("patched-{tag}"))).await.unwrap(),
+            LogSel::Device => {
+                let key: DevicePublicKey = [tag; 32].into();
+                sos_core::encode(&DeviceEvent::Trust(TrustedDevice::new(key, None, None))).await.unwrap()
+            }
+            LogSel::Files => {
+                let path = SecretPath(uuid::Uuid::from_bytes([0xF0; 16]), uuid::Uuid::from_bytes([tag; 16]));
+                let name: ExternalFileName = [tag; 32].into();
+                let ev = if i % 2 == 0 { FileEvent::CreateFile(path, name) } else { FileEvent::DeleteFile(path, name) };
+                sos_core::encode(&ev).await.unwrap()
+            }
         };
-        let bytes = sos_core::encode(&ev).await.unwrap();
         let commit = CommitHash(CommitTree::hash(&bytes));
-        let t = time::OffsetDateTime::from_unix_timestamp(1_800_000_000 + i as i64).unwrap();
+        let t = time::OffsetDateTime::from_unix_timestamp(1_800_000_000 + salt as i64 * 100 + i as i64).unwrap();
         v.push(EventRecord::new(UtcDateTime::from(t), Default::default(), commit, bytes));
     }
     v
+}
+
+/// A plain merge (no rewind) on the client through the `Merge` trait, as `execute_sync` does
+/// with the server's answer.
+async fn client_merge(w: &SyncWorld, log_type: &EventLogType, proof: CommitProof, patch: Vec<EventRecord>) -> Result<CheckedPatch, String> {
+    let mut a = w.devices[0].account.lock().await;
+    let mut outcome = MergeOutcome::default();
+    let es = |e: sos_account::Error| e.to_string();
+    match log_type {
+        EventLogType::Identity => a.merge_identity(FolderDiff { last_commit: None, checkpoint: proof, patch: Patch::new(patch) }, &mut outcome).await.map_err(es),
+        EventLogType::Account => a.merge_account(AccountDiff { last_commit: None, checkpoint: proof, patch: Patch::new(patch) }, &mut outcome).await.map(|r| r.0).map_err(es),
+        EventLogType::Device => a.merge_device(DeviceDiff { last_commit: None, checkpoint: proof, patch: Patch::new(patch) }, &mut outcome).await.map_err(es),
+        EventLogType::Files => a.merge_files(FileDiff { last_commit: None, checkpoint: proof, patch: Patch::new(patch) }, &mut outcome).await.map_err(es),
+        EventLogType::Folder(id) => a.merge_folder(id, FolderDiff { last_commit: None, checkpoint: proof, patch: Patch::new(patch) }, &mut outcome).await.map(|r| r.0).map_err(es),
+    }
+}
+
+async fn logs_of(w: &SyncWorld, server_side: bool) -> Result<std::collections::BTreeMap<String, Vec<Rec>>, Failure> {
+    if server_side {
+        let sv = w.server.read().await;
+        all_logs(sv.storage.as_ref().unwrap()).await
+    } else {
+        let a = w.devices[0].account.lock().await;
+        all_logs(&*a).await
+    }
 }
 
 pub fn check(c: &PatchCase) -> (CaseInfo, CheckResult) {
@@ -112,20 +196,42 @@ async fn run_case(c: &PatchCase, info: &mut CaseInfo) -> CheckResult {
         let a = w.devices[0].account.lock().await;
         *a.default_folder().await.ok_or_else(|| Failure::new("harness/no-default-folder", "no default folder"))?.id()
     };
-    let key = format!("folder:{folder_id}");
-    let side = if c.server_side { "server" } else { "client" };
-    let before = if c.server_side {
-        let sv = w.server.read().await;
-        all_logs(sv.storage.as_ref().unwrap()).await?
-    } else {
-        let a = w.devices[0].account.lock().await;
-        all_logs(&*a).await?
+    let (key, log_type) = match c.log {
+        LogSel::Identity => ("identity".to_string(), EventLogType::Identity),
+        LogSel::Account => ("account".to_string(), EventLogType::Account),
+        LogSel::Device => ("device".to_string(), EventLogType::Device),
+        LogSel::Files => ("files".to_string(), EventLogType::Files),
+        LogSel::Folder => (format!("folder:{folder_id}"), EventLogType::Folder(folder_id)),
     };
+    let side = if c.server_side { "server" } else { "client" };
+    // file log: plant events through an init diff (the way a first file reaches a replica);
+    // on the empty log this must be accepted
+    if c.log == LogSel::Files && c.prefill_files > 0 {
+        let pre = synthetic_patch(&c.log, c.prefill_files, 0x40).await;
+        let r = if c.server_side {
+            let client = w.devices[0].bridge.client.clone();
+            client.patch(PatchRequest { log_type, commit: None, proof: CommitProof::default(), patch: pre.clone() }).await.map(|r| r.checked_patch).map_err(|e| e.to_string())
+        } else {
+            client_merge(&w, &log_type, CommitProof::default(), pre.clone()).await
+        };
+        if !matches!(r, Ok(CheckedPatch::Success(_))) {
+            return Err(Failure::new(
+                format!("c07/{side}/init-diff-on-empty-file-log-refused"),
+                format!("[{side}] the init diff ({} file events, default checkpoint) on an empty file log was refused: {:?}", pre.len(), r.map(|_| "conflict")),
+            ));
+        }
+    }
+    let before = logs_of(&w, c.server_side).await?;
     let log = before.get(&key).cloned().unwrap_or_default();
     let commits: Vec<[u8; 32]> = log.iter().map(|r| r.commit).collect();
     // rewind target and the log as it is after the rewind
     let (target, cut): (CommitHash, Option<usize>) = match c.target {
+        _ if c.no_rewind => (CommitHash([0; 32]), Some(commits.len())),
         None => (CommitHash([0xAB; 32]), None),
+        Some(f) if commits.is_empty() => {
+            let _ = f;
+            (CommitHash([0xAB; 32]), None)
+        }
         Some(f) => {
             let i = pick(f, commits.len());
             let last = commits.iter().rposition(|x| *x == commits[i]).unwrap();
@@ -152,34 +258,47 @@ async fn run_case(c: &PatchCase, info: &mut CaseInfo) -> CheckResult {
             (p, "forged-root")
         }
         ProofKind::FullLog => (tree_head(&commits), "full-log"),
+        ProofKind::DefaultProof => (Some(CommitProof::default()), "default-proof"),
     };
-    let Some(proof) = proof else { return Ok(()) };
-    let expect_applied = cut.is_some() && matching.as_ref().map(|m| m.root == proof.root).unwrap_or(false);
-    let patch = synthetic_patch(c.patch_len).await;
+    // an empty log has no head: the sender's view of it is the default proof
+    let (proof, label) = match proof {
+        Some(p) => (p, label),
+        None => (CommitProof::default(), "default-proof"),
+    };
+    // applied iff the sender's view equals the log after the rewind; an empty log is
+    // described by the default proof (only the file log can be empty)
+    let expect_applied = match (&matching, cut) {
+        (Some(m), Some(_)) => m.root == proof.root && m.length == proof.length,
+        (None, Some(0)) => proof == CommitProof::default() && c.log == LogSel::Files,
+        _ => false,
+    };
+    let patch = synthetic_patch(&c.log, c.patch_len, 0xD0).await;
+    let side_label = format!("{side}/{}", if c.no_rewind { "plain-patch" } else { "rewind-and-patch" });
+    info.class(side_label);
+    info.class(format!("{side}/log/{:?}", c.log));
+    if c.log == LogSel::Files {
+        info.class(format!("{side}/file-log/{}", if commits.is_empty() { "empty" } else { "non-empty" }));
+    }
     info.class(format!("{side}/{label}"));
     info.class(format!("{side}/rewind-depth/{}", if depth_removed >= 2 { ">=2" } else if depth_removed == 1 { "1" } else { "0" }));
 
     let outcome: Result<CheckedPatch, String> = if c.server_side {
         let client = w.devices[0].bridge.client.clone();
         client
-            .patch(PatchRequest { log_type: EventLogType::Folder(folder_id), commit: Some(target), proof: proof.clone(), patch: patch.clone() })
+            .patch(PatchRequest { log_type, commit: if c.no_rewind { None } else { Some(target) }, proof: proof.clone(), patch: patch.clone() })
             .await
             .map(|r| r.checked_patch)
             .map_err(|e| e.to_string())
+    } else if c.no_rewind {
+        client_merge(&w, &log_type, proof.clone(), patch.clone()).await
     } else {
         let bridge = w.devices[0].bridge.clone();
         w.enter(0);
-        let r = bridge.rewind_local(&EventLogType::Folder(folder_id), target, proof.clone(), patch.clone()).await.map_err(|e| e.to_string());
+        let r = bridge.rewind_local(&log_type, target, proof.clone(), patch.clone()).await.map_err(|e| e.to_string());
         w.leave(0);
         r
     };
-    let after = if c.server_side {
-        let sv = w.server.read().await;
-        all_logs(sv.storage.as_ref().unwrap()).await?
-    } else {
-        let a = w.devices[0].account.lock().await;
-        all_logs(&*a).await?
-    };
+    let after = logs_of(&w, c.server_side).await?;
     let applied = matches!(outcome, Ok(CheckedPatch::Success(_)));
     match (&outcome, expect_applied) {
         (Ok(CheckedPatch::Success(_)), false) => {
@@ -188,7 +307,8 @@ async fn run_case(c: &PatchCase, info: &mut CaseInfo) -> CheckResult {
                 format!("[{side}] rewind-and-patch with a {label} proof was applied (rewind target {:?}, log of {} records)", c.target, commits.len()),
             ));
         }
-        (Ok(CheckedPatch::Conflict { .. }), true) | (Err(_), true) => {
+        // (an empty patch appends nothing either way: only 'unchanged' is checked for it)
+        (Ok(CheckedPatch::Conflict { .. }), true) | (Err(_), true) if !patch.is_empty() => {
             // a correct request on a non-trivial rewind must be accepted
             return Err(Failure::new(
                 format!("c07/{side}/correct-request-refused"),
